@@ -95,11 +95,6 @@ func emitTracesOps(t Traces, class int) {
 		return
 	}
 	for _, m := range tmodes {
-		if m.sorted && class >= 0 && tclasses[class].name == "cmpval-kinds" {
-			// whether CmpVal panics depends on which pairs sort.SliceStable happens to compare
-			stats["t-ops-skipped-class"]++
-			continue
-		}
 		r := convertTraces(t, m.sorted, pkg.WriterOptions{})
 		op := "otlp t2s-" + m.name + " " + encoded
 		res := ""
